@@ -55,6 +55,7 @@ def programs(tier: str):
     yield from _fine(tier)
     yield from _own_errors(tier)
     yield from _colliding(tier)
+    yield from _method_eq(tier)
     yield from _three_keys(tier)
     yield from _wrapped(tier)
     b = BOUNDS[tier]
@@ -114,6 +115,14 @@ def _colliding(tier: str):
         for limit in (1, 2):
             for cancels in (0, 1):
                 yield {"keys": keys, "limit": limit, "expiration": None, "outcome": "value", "cancels": cancels, "batch": 1, "variant": "function", "keymap": {"a": -1, "b": -2}}
+
+
+def _method_eq(tier: str):
+    for keys in ("aa", "aaa", "aab", "aaaa"):
+        for cancels in (0, 1):
+            if keys == "aaaa" and cancels:
+                continue
+            yield {"keys": keys, "limit": 2, "expiration": None, "outcome": "value", "cancels": cancels, "batch": 1, "variant": "method-eq"}
 
 
 def _wrapped(tier: str):
@@ -182,6 +191,26 @@ def execute(program, ch: Chooser) -> Result:  # noqa: C901, PLR0912, PLR0915
                     return await body(key)
 
             fn = Owner().call
+        elif program.get("variant") == "method-eq":
+            # two distinct receivers that compare (and hash) equal: callers alternate between
+            # them; each receiver has its own entries and its own in-flight invocations
+
+            class EqOwner:
+                def __init__(self, rid):
+                    self.rid = rid
+
+                def __eq__(self, other):
+                    return isinstance(other, EqOwner)
+
+                def __hash__(self):
+                    return 17
+
+                @cache(limit=limit, expiration=expiration)
+                async def call(self, key):
+                    return await body(f"{key}@{self.rid}")
+
+            receivers = [EqOwner(0), EqOwner(1)]
+            fn = None
         else:
 
             @cache(limit=limit, expiration=expiration)
@@ -226,10 +255,15 @@ def execute(program, ch: Chooser) -> Result:  # noqa: C901, PLR0912, PLR0915
                 await caller_body(i)
 
         async def caller_body(i: int):
-            model_call(i, keys[i])
+            if program.get("variant") == "method-eq":
+                model_call(i, f"{keys[i]}@{i % 2}")
+                call_ = receivers[i % 2].call
+            else:
+                model_call(i, keys[i])
+                call_ = fn
             km = program.get("keymap")
             try:
-                results[i] = ("value", await fn(km[keys[i]] if km else keys[i]))
+                results[i] = ("value", await call_(km[keys[i]] if km else keys[i]))
             except asyncio.CancelledError:
                 results[i] = ("cancelled",)
                 raise
